@@ -65,9 +65,10 @@ def execute(ctx, items, want_any=True, want_spec=True):
     reqs = []
     for case, algo in items:
         r = Run(case, algo)
-        r.impl_all = strip(run_algo(case, algo, "all"))
+        # present="auto": node names / family names / the infinite-cost object vary with the case (sr.presentation)
+        r.impl_all = strip(run_algo(case, algo, "all", present="auto"))
         if want_any and algo != "lca":
-            r.impl_any = strip(run_algo(case, algo, "any"))
+            r.impl_any = strip(run_algo(case, algo, "any", present="auto"))
         lc = lean_case(case)
         reqs.append({"op": "solve", "algo": algo, **lc})
         if want_spec:
@@ -308,9 +309,20 @@ def nontrivial(case):
     return n >= 3 and len(gen.leaf_paths(case["S"])) >= 2
 
 
+def c_is_inf(case):
+    return full_costs(case)["hgt"] == "inf"
+
+
 def describe(res, case, algo):
     n = sum(1 for _ in _leaves(case["O"]))
     res.dist[f"{algo}:o{n}s{len(gen.leaf_paths(case['S']))}"] += 1
+    from .sr import presentation
+    p = presentation(case)
+    res.dist["presentation: names=%s" % p["names"]] += 1
+    if p["fams"] != "letters" and any("f" in l for _, l in _leaves(case["O"])):
+        res.dist["presentation: multi-character family names, one object per occurrence"] += 1
+    if p["float_inf"] and c_is_inf(case):
+        res.dist["presentation: hgt=float('inf')"] += 1
     c = full_costs(case)
     if c["hgt"] == "inf":
         res.dist["hgt=inf"] += 1
